@@ -3,11 +3,11 @@ from engine import cside
 from engine.checks import c_common
 
 FUNCS = ['Matrix_New', 'matrix_subscr', 'matrix_ass_subscr',
-         'matrix_ass_subscr_noalias', 'matrix_set_size',
+         'matrix_ass_subscr_noalias', 'matrix_set_size', 'matrix_new',
          'Matrix_NewFromSequence',
          'matrix_add_generic', 'matrix_sub_generic', 'matrix_mul_generic',
          'matrix_div_generic', 'matrix_rem_generic']
-KINDS = ('extern-requires', 'index-reject', 'index-accept', 'index-address', 'valid-preserved',
+KINDS = ('extern-requires', 'frame', 'index-reject', 'index-accept', 'index-address', 'valid-preserved',
          'size-assigned', 'constructor-postcondition', 'typecode-preserved',
          'reject-exception', 'reject-clean', 'covered', 'shape-rule',
          'inplace-type-rule', 'kernel-typecode')
@@ -34,9 +34,9 @@ def run(report, tier, seed):
         'numerical results of + - * / ** % and of the element-wise '
         'functions, max/min/sum, printing, iteration, comparison',
         'construction from sequences / block columns beyond Matrix_New',
-        'indexing and indexed assignment with slices (PySlice paths are '
-        'abandoned paths, listed in the evidence) and with sparse right-hand '
-        'sides; the body of create_indexlist (its contract - every element '
+        'indexed assignment with sparse right-hand sides; which element a '
+        'slice pair addresses (only that it lies inside the matrix); the '
+        'body of create_indexlist (its contract - every element '
         'of the returned index list is in [-dim, dim) - is ASSUMED: proving '
         'it needs a quantified invariant over buffer contents); values '
         'stored by indexed assignment (only the addressed element is '
